@@ -632,7 +632,7 @@ func (it *Iterator) parseItem() bool {
 	}
 
 	// Skip banned keys only if it does not have badger internal prefix.
-	if !isInternalKey && it.txn.db.isBanned(key) != nil {
+	if !isInternalKey && it.txn.db.isBanned(y.ParseKey(key)) != nil {
 		mi.Next()
 		return false
 	}
